@@ -204,8 +204,8 @@ pub const HISTORY_INPUTS: [&[u8]; 3] = [b"0123456789", b"HELLO WORLD 123", b"hel
 
 fn other_case(i: u8) -> PCase {
     match i {
-        0 => PCase { input: b"an unrelated payload, level H, version 5".to_vec(), opts: Opts { mode: None, ecl: Some(3), version: Some(5), mask: None }, render: Render::None },
-        _ => PCase { input: b"31415926535897932384626433832795028841971".to_vec(), opts: Opts { mode: None, ecl: Some(0), version: None, mask: Some(3) }, render: Render::None },
+        0 => PCase { input: b"an unrelated payload, level H, version 5".to_vec(), opts: Opts { mode: None, ecl: Some(3), version: Some(5), mask: None, order: 0 }, render: Render::None },
+        _ => PCase { input: b"31415926535897932384626433832795028841971".to_vec(), opts: Opts { mode: None, ecl: Some(0), version: None, mask: Some(3), order: 0 }, render: Render::None },
     }
 }
 
@@ -363,7 +363,7 @@ impl IModel {
 
 fn render_symbols() -> Vec<(PCase, Box<QRCode>)> {
     let mut v = vec![];
-    for (input, o) in [(&b"HELLO"[..], Opts { mode: None, ecl: Some(0), version: Some(1), mask: None }), (&b"https://example.com/c14"[..], Opts { mode: None, ecl: Some(1), version: Some(2), mask: None }), (&b"WORLD 2"[..], Opts { mode: None, ecl: Some(0), version: Some(1), mask: None })] {
+    for (input, o) in [(&b"HELLO"[..], Opts { mode: None, ecl: Some(0), version: Some(1), mask: None, order: 0 }), (&b"https://example.com/c14"[..], Opts { mode: None, ecl: Some(1), version: Some(2), mask: None, order: 0 }), (&b"WORLD 2"[..], Opts { mode: None, ecl: Some(0), version: Some(1), mask: None, order: 0 })] {
         if let Outcome::Ok(q) = subject::build(input, &o) {
             v.push((PCase { input: input.to_vec(), opts: o, render: Render::None }, q));
         }
@@ -618,7 +618,7 @@ pub fn run(ctx: &Ctx) -> Collector {
             for ecl in [None, Some(0), Some(3)] {
                 for version in [None, Some(1), Some(2), Some(7)] {
                     for mask in std::iter::once(None).chain((0..8u8).map(Some)) {
-                        needed.push(PCase { input: input.to_vec(), opts: Opts { mode, ecl, version, mask }, render: Render::None });
+                        needed.push(PCase { input: input.to_vec(), opts: Opts { mode, ecl, version, mask, order: 0 }, render: Render::None });
                     }
                 }
             }
